@@ -82,13 +82,8 @@ def run_history(ctx, program, history, tag="random"):
                     return did, mr, ()
             return None
         if id(obj) in G.derived_specs:
-            P, D = G.derived_specs[id(obj)]
-            spec = {"k": "ds", "id": did}
-            if P:
-                spec["P"] = P
-            if D:
-                spec["D"] = D
-            return did, ref.may_read(spec), (repr(P), repr(D))
+            spec = G.derived_specs[id(obj)]
+            return did, ref.may_read(spec), (repr(spec.get("P")), repr(spec.get("D")), repr(spec.get("chain")))
         return did, ref.may_read({"k": "ds", "id": did}), ()
 
     spec_cache = {}
